@@ -136,7 +136,7 @@ PROPS = {
         "level": "exploration",
         "interpreters": ("3.7", "3.8", "3.9", "3.10", "3.11"),
         "post": "c07_schema",
-        "rule": "every value of S-CONST (see C08) x position {instruction operand, unreferenced table entry, operand of a nested function} and every string of a 14-string list (empty, non-ASCII, astral, lone surrogates, NUL, tag lookalikes) x position {name, local, parameter, cell, free variable, co_name, co_filename, docstring, class name}, each built as a real code object (decoded and normalized) and as hand-built CodeData; 4 synthetic CodeData exercising every schema definition; every code object (decoded and normalized) of program stratum Pa (optimize 0) as whole-module documents (thorough: all strata, every nested object on its own too). For each: strict-JSON walker, independent Draft-7 mini validator (cross-checked in the driver against jsonschema.Draft7Validator on a deterministic subset + negative controls), json and json-as-UTF-8 (and orjson on 3.11) serialize/parse cycles, from_json_data == original (strict key, NaNs identified), hashable, to_code identical.",
+        "rule": "every value of S-CONST (see C08) x position {instruction operand, unreferenced table entry, operand of a nested function} and every string of a 19-string list (empty, non-ASCII, astral, lone surrogates, NUL, tag lookalikes) x position {name, local, parameter, cell, free variable, co_name, co_filename, docstring, class name}, each built as a real code object (decoded and normalized) and as hand-built CodeData; 4 synthetic CodeData exercising every schema definition; every code object (decoded and normalized) of program stratum Pa (optimize 0) as whole-module documents (thorough: all strata, every nested object on its own too). For each: strict-JSON walker, independent Draft-7 mini validator (cross-checked in the driver against jsonschema.Draft7Validator on a deterministic subset + negative controls), json and json-as-UTF-8 (and orjson on 3.11) serialize/parse cycles, from_json_data == original (strict key, NaNs identified), hashable, to_code identical.",
         "assumptions": TRUST + ["orjson exists only on the 3.11 host, where only hand-built CodeData can be used (from_code cannot run there)"],
         "required_reach": {"quick": ["cycle-ok:json", "cycle-ok:json-utf8", "cycle-ok:orjson@3.11", "encodes-identically"]},
     },
@@ -158,7 +158,7 @@ PROPS = {
     "C06": {
         "level": "model_checking",
         "interpreters": PRODUCERS,
-        "rule": "(i) explicit-state search: from every code object of every 8th program of stratum Pa, of every statement template in every context (P1), of the equal-but-distinct-constant programs Q (thorough: all of Pa + a third of Pb) and of the jump-width programs J (bodies up to 200 statements, so that re-encoding normalized data must grow jumps), breadth-first over the operations {code round trip, JSON round trip, normalize} applied to real CodeData values hash-consed by strict key (NaNs identified), to closure or depth 4 (thorough 6); invariants on every state: normalize idempotent, normalize(state) == normalize(from_code(c0)); a graph that does not close is a violation. (ii) every serialization variant of every code object with tables <=6 entries: all permutations (<=4 movable entries; transpositions above) of the name/constant/local/cell tables with operands renumbered (docstring slot, parameters and free variables fixed), one unreferenced padding entry at every movable position, a redundant EXTENDED_ARG 0 before each instruction in turn, a harness re-assembly with a different line-table encoding, CO_NESTED toggled; each also substituted inside its parents up to the root. Each variant is first confirmed (harness self-check) to read to CPython exactly like the original. states = CodeData values reached; transitions = operation applications; traces_validated_against_impl = graphs explored on the real implementation.",
+        "rule": "(i) explicit-state search: from every code object of every 8th program of stratum Pa, of every statement template in every context (P1), of the equal-but-distinct-constant programs Q (thorough: all of Pa + a third of Pb) of the jump-width programs J (bodies up to 200 statements, so that re-encoding normalized data must grow jumps) and of the 65 537-entry name table (thorough: name and constant tables of 65 535..65 537 entries), breadth-first over the operations {code round trip, JSON round trip, normalize} applied to real CodeData values hash-consed by strict key (NaNs identified), to closure or depth 4 (thorough 6); invariants on every state: normalize idempotent, normalize(state) == normalize(from_code(c0)); a graph that does not close is a violation. (ii) every serialization variant of every code object with tables <=6 entries: all permutations (<=4 movable entries; transpositions above) of the name/constant/local/cell tables with operands renumbered (docstring slot, parameters and free variables fixed), one unreferenced padding entry at every movable position, a redundant EXTENDED_ARG 0 before each instruction in turn, a harness re-assembly with a different line-table encoding, CO_NESTED toggled; each also substituted inside its parents up to the root. Each variant is first confirmed (harness self-check) to read to CPython exactly like the original. states = CodeData values reached; transitions = operation applications; traces_validated_against_impl = graphs explored on the real implementation.",
         "assumptions": TRUST,
         "required_reach": {"quick": ["graph-closed", "variant:permute", "variant:pad", "variant:extended-arg-0", "variant:toggle", "variant:reassembled", "variant-nested", "variant-ok"]},
     },
